@@ -115,7 +115,7 @@ def _sync(ms: MS, out: CaseOut, use_check: bool, where: str) -> None:
 # -- commands really in flight together (threading subsystem) -------------------------
 
 BURST_OPS = ['append', 'append', 'store', 'store', 'nstore', 'expunge',
-             'copy', 'move', 'fetch', 'noop']
+             'copy', 'move', 'move', 'fetch', 'noop', 'del']
 
 
 def _burst_case(case: dict[str, Any]) -> CaseOut:
@@ -173,6 +173,13 @@ def _burst_case(case: dict[str, Any]) -> CaseOut:
                 c.shadow.errors.clear()
 
         assigned: dict[tuple[int, int], bytes] = {}
+        doomed: set[int] = set()       # UIDs some session flagged \Deleted
+        moved: set[int] = set()        # source UIDs of acknowledged MOVEs
+        start = probe_dump(sim, 'alice', b'INBOX')
+        assert start is not None
+        vid_of = {u: m['vid'] for u, m in start['messages'].items()}
+        doomed.update(u for u, m in start['messages'].items()
+                      if b'\\deleted' in m['flags'])
         for rno, rnd in enumerate(case['rounds']):
             if out.failures:
                 break
@@ -186,7 +193,10 @@ def _burst_case(case: dict[str, Any]) -> CaseOut:
                 uids = [u for u in c.shadow.view if u is not None]
                 n = len(c.shadow.view)
                 nonuid = False
-                fl = b' '.join(flags_from_mask(1 + b % 31))
+                # \\Deleted only through 'del', so that the harness knows
+                # which messages an EXPUNGE may take (conservation, below)
+                fl = b' '.join(f for f in flags_from_mask(1 + b % 31)
+                               if f != b'\\Deleted') or b'\\Seen'
                 mode = [b'+FLAGS', b'-FLAGS', b'FLAGS'][a % 3]
                 if op == 'append':
                     vid += 1
@@ -203,6 +213,10 @@ def _burst_case(case: dict[str, Any]) -> CaseOut:
                     nonuid = True
                 elif op == 'expunge':
                     cmd = b'EXPUNGE'
+                elif op == 'del' and uids:
+                    u = uids[a % len(uids)]
+                    doomed.add(u)
+                    cmd = b'UID STORE %d +FLAGS (\\Deleted)' % u
                 elif op in ('copy', 'move') and uids:
                     pick = uids[a % len(uids):][:1 + b % 2]
                     cmd = b'UID %s %s Other' % (
@@ -250,6 +264,12 @@ def _burst_case(case: dict[str, Any]) -> CaseOut:
                                  f'{key} was reported for {assigned[key]!r} '
                                  f'and for {appended[k]!r}')
                     assigned[key] = appended[k]
+                    vid_of[key[1]] = appended[k]
+                mm = _re.search(rb' OK \[COPYUID \d+ ([\d:,]+) [\d:,]+\]', raw)
+                if mm and cmd.startswith(b'UID MOVE'):
+                    for part in mm.group(1).split(b','):
+                        lo, _, hi = part.partition(b':')
+                        moved.update(range(int(lo), int(hi or lo) + 1))
                 if not any(r.kind == 'tagged' and r.tag == tag
                            for r in resps) and not c.conn.done:
                     out.fail('no-completion:threads',
@@ -278,6 +298,41 @@ def _burst_case(case: dict[str, Any]) -> CaseOut:
                              f'APPENDUID {uv} {u} was given for {v!r}, UID '
                              f'FETCH finds {got["vid"]!r} there')
             out.counters['burst_appenduids_checked'] = len(assigned)
+            # conservation under real concurrency (C14's clause): a message
+            # nobody flagged \Deleted is still in INBOX unless a MOVE that
+            # was acknowledged took it - and then it is in Other; nothing is
+            # in INBOX twice
+            other = probe_dump(sim, 'alice', b'Other')
+            assert other is not None
+            other_vids = [m['vid'] for m in other['messages'].values()]
+            inbox_vids = [m['vid'] for m in d['messages'].values()]
+            for v in set(inbox_vids):
+                if v is not None and inbox_vids.count(v) > 1:
+                    out.fail('message-duplicated-in-source:threads',
+                             f'{v!r} is in INBOX {inbox_vids.count(v)} '
+                             f'times')
+            for u, v in sorted(vid_of.items()):
+                if u in doomed or v is None:
+                    continue
+                if u in moved:
+                    if v not in other_vids:
+                        out.fail('moved-message-lost:threads',
+                                 f'UID {u} ({v!r}): a MOVE was acknowledged '
+                                 f'for it, it is not in Other '
+                                 f'({sorted(set(other_vids))})')
+                        break
+                    if u in d['messages']:
+                        out.fail('moved-message-still-in-source:threads',
+                                 f'UID {u} ({v!r}) was moved (acknowledged) '
+                                 f'and is still in INBOX')
+                        break
+                elif u not in d['messages']:
+                    out.fail('message-lost:threads',
+                             f'UID {u} ({v!r}) was never flagged \\Deleted '
+                             f'nor moved, and is gone from INBOX '
+                             f'({sorted(d["messages"])})')
+                    break
+            out.counters['burst_messages_accounted'] = len(vid_of)
             for j, c in enumerate(clients):
                 if c.conn.done:
                     continue
